@@ -648,7 +648,7 @@ def main():
     tier = os.environ.get("VERIF_TIER", "quick")
     only = None
     keep = False
-    jobs = int(os.environ.get("VERIF_JOBS", "8"))
+    jobs = int(os.environ.get("VERIF_JOBS", "12"))
     replay_file = None
     i = 1
     while i < len(args):
